@@ -162,6 +162,49 @@ def bound_family_case(draw):
 
 
 @st.composite
+def quad_family_case(draw, n=3):
+    """models x'Qx over a vector "x" of one size with DIFFERENT constant matrices Q (each built, differentiated and dropped:
+    the NumPy arrays of a dead model are freed and their id() is reused by the next model's arrays)"""
+    env = {"scalars": [], "vectors": [{"name": "x", "n": n}], "matrices": [], "params": []}
+    Q = [[float(draw(st.integers(-4, 4))) for _ in range(n)] for _ in range(n)]
+    style = draw(st.sampled_from(["QuadraticForm", "QuadraticForm", "quadratic_form", "dot_matvec"]))
+    recipe = ["quad", ["vvar", "x"], Q, style]
+    if draw(st.integers(0, 3)) == 0:
+        recipe = ["bin", "+", recipe, ["lincomb", [float(draw(st.integers(-3, 3))) for _ in range(n)], ["vvar", "x"], "c@x"]]
+    order = all_names(env)
+    pts = draw(gen.points(order, k=2))
+    part = draw(st.sampled_from(["c03", "c03", "c02", "c17", "c01"]))
+    if part == "c01":
+        return [part, {"env": env, "expr": recipe, "order": order, "stratum": "decl", "points": pts, "config": "default"}]
+    if part == "c02":
+        return [part, {"env": env, "expr": recipe, "wrt": draw(st.sampled_from(order)), "points": pts, "config": "default"}]
+    if part == "c17":
+        return [part, {"env": env, "expr": recipe, "order": order, "points": pts, "config": "default", "sense": "minimize",
+                       "stratum": "general", "vstratum": "decl"}]
+    return [part, {"env": env, "exprs": [recipe], "strata": ["general"], "order": order, "vstratum": "decl", "points": pts,
+                   "config": "default"}]
+
+
+@st.composite
+def big_family_case(draw, n=None):
+    """hand-built models with 64-130 variables named x[i] (harness.fresh._observe_big): same names, other bounds / data / kind;
+    judged only by the fresh-process differential"""
+    from harness.fresh import BIG_KINDS
+    n = n or draw(st.sampled_from([64, 65, 80, 128, 130]))
+    lb, ub = draw(st.sampled_from([(None, None), (0.0, None), (-2.0, 3.0), (0.5, 9.0), (None, 4.0), (-1.0, 1.0)]))
+    kind = draw(st.sampled_from(BIG_KINDS))
+    if kind == "lp" and lb is None:
+        ub = 4.0 if ub is None else ub
+    kw = {}
+    if kind in ("nlp-bounds", "nlp-free"):
+        if kind == "nlp-free":
+            lb = ub = None
+        kw = draw(st.sampled_from([{}, {"maxiter": 3}, {"method": "SLSQP", "maxiter": 4}, {"method": "L-BFGS-B", "maxiter": 2}]))
+    return ["big", {"n": n, "kind": kind, "lb": lb, "ub": ub, "mul": draw(st.integers(1, 5)), "shift": draw(st.integers(0, 6)),
+                    "kw": kw, "edit": draw(st.integers(0, 3)) == 0}]
+
+
+@st.composite
 def cases(draw):
     old = gen.TINY
     gen.TINY = True
@@ -173,7 +216,18 @@ def cases(draw):
         wfam = (not pfam) and (not bfam) and draw(st.integers(0, 4)) == 0
         vfam = (not pfam) and (not bfam) and (not wfam) and draw(st.integers(0, 3)) == 0
         vwhich = draw(st.sampled_from(["step", "rev", "row"]))
+        none = not (pfam or bfam or wfam or vfam)
+        qfam = none and draw(st.integers(0, 5)) == 0
+        gfam = none and (not qfam) and draw(st.integers(0, 5)) == 0
+        qn = draw(st.sampled_from([2, 3, 3, 4]))
+        gn = draw(st.sampled_from([64, 65, 80, 128]))
         for _ in range(k + 1):
+            if qfam and draw(st.integers(0, 4)) > 0:
+                items.append(draw(quad_family_case(qn)))
+                continue
+            if gfam and draw(st.integers(0, 4)) > 0:
+                items.append(draw(big_family_case(gn)))
+                continue
             if vfam and draw(st.integers(0, 3)) > 0:
                 items.append(draw(view_family_case(vwhich)))
                 continue
@@ -201,6 +255,8 @@ def strategy(tier):
 
 def _env_of(item):
     c = item[1]
+    if item[0] == "big":
+        return {"vectors": [{"name": "x"}]}
     return c["env"] if "env" in c else c["model"]["env"]
 
 
@@ -212,8 +268,9 @@ def _names(env):
 
 
 def sample_repr(case):
-    return {"prefix": [(p, _mod(p).sample_repr(c)) for p, c in case["prefix"]],
-            "target": (case["target"][0], _mod(case["target"][0]).sample_repr(case["target"][1])), "flood": case["flood"]}
+    def one(p, c):
+        return (p, c if p == "big" else _mod(p).sample_repr(c))
+    return {"prefix": [one(p, c) for p, c in case["prefix"]], "target": one(*case["target"]), "flood": case["flood"]}
 
 
 def _flood(n):
@@ -242,7 +299,32 @@ def _flood(n):
     gc.collect()
 
 
+_PRISTINE = None
+
+
+def _fresh_observation(item):
+    """the target's observations in a pristine process (harness.fresh); None if the server cannot be used"""
+    global _PRISTINE
+    from harness import fresh
+    if _PRISTINE is None:
+        import atexit
+        _PRISTINE = fresh.Pristine()
+        atexit.register(_PRISTINE.close)
+    return _PRISTINE.observe(item)
+
+
+def _run_item(part, pc):
+    if part == "big":
+        from harness import fresh
+        fresh.observe([part, pc])
+        return None
+    return _mod(part).check(pc)
+
+
 def check(case):
+    import json
+    from harness import fresh
+    from harness.engine import _json_default
     classes = ["target:" + case["target"][0], "flood:" + str(case["flood"])] + ["prefix:" + p for p, _ in case["prefix"]]
     tnames = _names(_env_of(case["target"]))
     shared = False
@@ -251,7 +333,7 @@ def check(case):
             if case["flood"] and i == case["flood_pos"]:
                 _flood(case["flood"])
             try:
-                _mod(part).check(pc)  # build / compile / differentiate / classify / solve the other model; outcome irrelevant here
+                _run_item(part, pc)  # build / compile / differentiate / classify / solve the other model; outcome irrelevant here
             except Exception:
                 pass
             if _names(_env_of([part, pc])) & tnames:
@@ -260,7 +342,18 @@ def check(case):
             _flood(case["flood"])
         gc.collect()
         part, tc = case["target"]
-        res = _mod(part).check(tc)
+        res = _run_item(part, tc)
+        # differential: everything observable on the target here, after the history, against a pristine process
+        here = json.loads(json.dumps(fresh.observe([part, tc]), default=_json_default))
+    there = _fresh_observation(json.loads(json.dumps([part, tc], default=_json_default)))
+    if res is None:
+        res = Result.ok(True, classes)
+    delta = fresh.diff(here, there)
+    classes.append("differential:" + ("unsupported" if here.get("unsupported") else "observed"))
+    if delta and res.kind != "violation":
+        return Result.violation(f"differs-from-fresh-process:{part}:{delta.split(':')[0].split('@')[0].split('[')[0]}",
+                                f"target ({part}) observed after the prefix {[p for p, _ in case['prefix']]} (flood={case['flood']}) "
+                                f"differs from the same model observed in a pristine process: {delta}\n target={sample_repr(case)['target']}", classes)
     if res.kind == "violation":
         return Result.violation(f"after-prefix:{part}:{res.label}",
                                 f"target ({part}) fails after the prefix {[p for p, _ in case['prefix']]} (flood={case['flood']}): {res.detail}", classes)
